@@ -457,9 +457,16 @@ class CollisionArray:
             targetGrid.N - 1,
             targetGrid.N - 1,
         )
-        interpolatedData = np.array(source.polynomialData.evaluate(gridPoints, (1, 2)))[
-            ..., : targetGrid.N - 1, : targetGrid.N - 1
-        ].reshape(newShape)
+        ## evaluate() returns the axes (point, a, b, j, k), with point = (alpha, beta)
+        ## flattened. Move the point axis behind the first particle axis before
+        ## unflattening it, so that we end up with (a, alpha, beta, b, j, k).
+        interpolatedData = np.moveaxis(
+            np.array(source.polynomialData.evaluate(gridPoints, (1, 2)))[
+                ..., : targetGrid.N - 1, : targetGrid.N - 1
+            ],
+            0,
+            1,
+        ).reshape(newShape)
 
         interpolatedPolynomial = Polynomial(
             interpolatedData,
